@@ -5,6 +5,7 @@ Everything here is a pure function of its arguments; randomness only comes from 
 import os
 import re
 import shutil
+import time
 
 import dst
 
@@ -100,7 +101,12 @@ def list_algorithms(sg=None):
     exe = (sg or sgdir()) + '/lib/simgrid/smpimain'
     if not os.path.exists(exe):
         raise dst.Infra('smpimain missing: ' + exe)
-    rc, out, err, to = dst.run_proc([exe, '--help-coll'], timeout=30)
+    for attempt in range(60):
+        rc, out, err, to = dst.run_proc([exe, '--help-coll'], timeout=30)
+        if rc == 127 and b'error while loading shared libraries' in err:
+            time.sleep(3)
+            continue
+        break
     txt = out.decode(errors='replace') + err.decode(errors='replace')
     algos = {}
     cur = None
@@ -225,7 +231,14 @@ def run_smpi(scratch, np, plat, hosts, cfg, plan_text, timeout=60, extra_env=Non
     env = {'SMPI_GLOBAL_SIZE': str(np), 'LD_LIBRARY_PATH': sgdir() + '/lib'}
     if extra_env:
         env.update(extra_env)
-    rc, out, err, to = dst.run_proc(cmd, timeout=timeout, env=env, cwd=scratch)
+    for attempt in range(60):
+        rc, out, err, to = dst.run_proc(cmd, timeout=timeout, env=env, cwd=scratch)
+        if (rc == 127 and b'error while loading shared libraries' in err) or b'file too short' in err:
+            time.sleep(3)       # bin/vbuild is relinking the library right now (it holds build/.lock): wait, retry
+            continue
+        break
+    else:
+        raise dst.Infra('libsimgrid not loadable: ' + err.decode(errors='replace')[:300])
     return rc, out.decode(errors='replace'), err.decode(errors='replace'), to
 
 
@@ -233,9 +246,12 @@ def cleanup(scratch):
     shutil.rmtree(scratch, ignore_errors=True)
 
 
+# a fatal MPI error code raised by the collective entry point itself (not by an internal recv/send of an algorithm)
+_MPI_ERR = re.compile(r'(MPI_\w+) - returned (MPI_ERR_\w+) instead of MPI_SUCCESS')
 REFUSAL_PATTERNS = [
     r"can't be used", r'can not be used', r'cannot be used', r'invalid_argument', r'power of two', r'power of 2',
     r'not implemented', r'[Uu]nimplemented', r'not supported', r'requires? ', r'only works? ',
+    r'Assertion pof2 == comm_size failed',   # reduce_scatter mpich_rdb/noncomm: 'FIXME this version only works for power of 2 procs'
 ]
 _REFUSAL = re.compile('|'.join(REFUSAL_PATTERNS))
 
@@ -250,6 +266,9 @@ def classify_abort(rc, err, timed_out):
         return 'hang', (msg[0] if msg else 'deadlock')[:300]
     crit = [l for l in lines if 'CRITICAL' in l or 'Assertion' in l or 'exception' in l.lower() or 'rror' in l]
     text = ' | '.join(crit[:3])[:500] if crit else ' | '.join(lines[-3:])[:500]
+    m = _MPI_ERR.search(err)
+    if m and rc != 0:
+        return 'refused', 'explicit MPI error: %s returned %s' % (m.group(1), m.group(2))
     m = _REFUSAL.search(err)
     if m and rc != 0:
         l = [x for x in lines if _REFUSAL.search(x)]
@@ -293,3 +312,55 @@ def coll_plan_text(plan):
             if name in c:
                 out.append('arr %s %d %s' % (name, len(c[name]), ' '.join(str(DT_CODE[x]) for x in c[name])))
     return '\n'.join(out) + '\n'
+
+
+# ---------------------------------------------------------------------------------------------------------
+def rma_plan_text(plan):
+    np = plan['np']
+    out = ['mode rma', 'np %d' % np, 'wsize %d' % plan['wsize'], 'nphases %d' % len(plan['phases']),
+           'winalloc %d' % plan.get('winalloc', 0)]
+    for p, ph in enumerate(plan['phases']):
+        out.append('phase %d %s' % (p, ph['kind']))
+        if ph.get('init'):
+            out.append('init %d %d' % (p, ph['init']))
+        if ph['kind'] == 'pscw':
+            out.append('arr group %d %s' % (np * np, ' '.join(str(x) for x in ph['group'])))
+        for rk in range(np):
+            ops = ph['ops'][rk]
+            out.append('nops %d %d' % (rk, len(ops)))
+            for o in ops:
+                w = o['what']
+                head = 'op %d %d %s' % (o['id'], o.get('think', 0), w)
+                if w == 'lock':
+                    head += ' %d %d' % (o['target'], o['excl'])
+                elif w in ('unlock', 'flush', 'flushl'):
+                    head += ' %d' % o['target']
+                elif w == 'put':
+                    head += ' %d %d %d %d' % (o['target'], o['disp'], o['count'], o['seed'])
+                elif w == 'get':
+                    head += ' %d %d %d' % (o['target'], o['disp'], o['count'])
+                elif w in ('acc', 'gacc'):
+                    head += ' %d %d %d %s %d' % (o['target'], o['disp'], o['count'], o['op'], o['seed'])
+                elif w == 'fop':
+                    head += ' %d %d %s %d' % (o['target'], o['disp'], o['op'], o['seed'])
+                elif w == 'cas':
+                    head += ' %d %d %d %d' % (o['target'], o['disp'], o['cmp'], o['newv'])
+                out.append(head)
+    return '\n'.join(out) + '\n'
+
+
+RMA_VC = {'sum': VC_SUM, 'prod': VC_PROD, 'max': VC_MINMAX, 'min': VC_MINMAX, 'band': VC_BAND, 'bxor': VC_BITS,
+          'bor': VC_BITS, 'replace': VC_MOVE, 'noop': VC_MOVE}
+
+
+def rma_origin_values(op, rank):
+    """the origin buffer the harness builds for a put / accumulate-type op"""
+    if op['what'] == 'put':
+        vc = VC_MOVE
+    else:
+        vc = RMA_VC[op['op']]
+    return [value_of(vc, op['seed'], rank, k, 1 << 20) for k in range(op['count'])]
+
+
+def rma_init_values(seed, rank, W):
+    return [value_of(VC_SUM, seed, rank, i, 1 << 20) + 10 for i in range(W)]
